@@ -48,7 +48,9 @@ def run_one(mu, slot):
         else:
             path = os.path.join(scratch, 'crates', 'kira', 'src', mu['file'])
             s = open(path).read()
-            if s.count(mu['old']) != 1:
+            if mu['id'].startswith('ctrl-rename') and s.count(mu['old']) >= 1:
+                pass
+            elif s.count(mu['old']) != 1:
                 return dict(id=mu['id'], ok=False, status='anchor text occurs %d times (mutant out of date)' % s.count(mu['old']), keys=[])
             open(path, 'w').write(s.replace(mu['old'], mu['new']))
         ev = os.path.join(scratch, 'evidence')
